@@ -89,7 +89,7 @@ func runSolver(ctx context.Context, s SolverCfg, file string, opts solveOpts) (s
 }
 
 func solveOne(o *Obligation, opts solveOpts) {
-	if o.Status == "unbound" || (o.Status == "unsat" && o.Kind == "site-enum") {
+	if o.Status == "unbound" || (o.Status == "unsat" && (o.Kind == "site-enum" || o.Kind == "owner")) {
 		return
 	}
 	if o.Cover {
